@@ -36,7 +36,8 @@ SETS = {'inet': [('web', 'inet', False)], 'unix': [('ux', 'unix', False)],
 def scenarios(tier):
     out = []
     for sset in (('inet+unix', 'inet+reuse') if tier == 'quick' else SETS):
-        out.append(Scenario('sock', sset=sset, tier=tier))
+        for ref in ('cmd', 'args'):
+            out.append(Scenario('sock', sset=sset, tier=tier, ref=ref))
     return out
 
 
@@ -105,8 +106,11 @@ def run(scn, ch):
                 cfg.update(path=scratch.path(name + '.sock'), family='AF_UNIX')
             socks.append(CircusSocket.load_from_config(cfg))
             refs.append('--%s $(circus.sockets.%s)' % (name, name))
-        cmd = 'worker ' + ' '.join(refs)
-        world = World(ch, [WSpec('u', numprocesses=2, cmd=cmd, use_sockets=True, graceful_timeout=0.1),
+        if scn.p.get('ref', 'cmd') == 'cmd':
+            cmd, args = 'worker ' + ' '.join(refs), None
+        else:
+            cmd, args = 'worker', ' '.join(refs)          # the references live in `args`, not in `cmd`
+        world = World(ch, [WSpec('u', numprocesses=2, cmd=cmd, args=args, use_sockets=True, graceful_timeout=0.1),
                            WSpec('p', numprocesses=1, cmd='plain', graceful_timeout=0.1)], sockets=socks)
         world.kernel.fd_snapshot = fd_table
         world.judged_spawns = 0
@@ -131,10 +135,14 @@ def run(scn, ch):
         # --- every spawn since the last judgement
         for p in world.kernel.spawn_log[world.judged_spawns:]:
             argv = p.argv if isinstance(p.argv, list) else [p.argv]
+            # what the child process gets (fork/exec rule, checked by the conformance matrix): descriptors 0-2, every
+            # inheritable descriptor unless close_fds, and pass_fds
+            table = p.inherit_fds or {}
+
+            def reaches(fd):
+                ent = table.get(fd)
+                return fd in p.pass_fds or (not p.close_fds and ent is not None and ent[0])
             if p.watcher == 'u':
-                res.check('C07.close_fds', p.close_fds is False,
-                          lambda: 'use_sockets worker %d created with close_fds=%r' % (p.pid - PID_BASE, p.close_fds),
-                          where='process.spawn')
                 for name, kind, reuse in SETS[scn.sset]:
                     try:
                         fd = int(argv[argv.index('--' + name) + 1])
@@ -143,24 +151,27 @@ def run(scn, ch):
                                   % (p.pid - PID_BASE, argv, name), where='process.format_args')
                         continue
                     ent = (p.inherit_fds or {}).get(fd)
-                    res.check('C07.fd_open_listening', ent is not None and ent[2],
+                    # so_reuseport sockets are excepted by the statement (bound per worker by design): only "open" is required
+                    res.check('C07.fd_open_listening', ent is not None and (ent[2] or reuse),
                               lambda: 'worker %d got descriptor %d for %s which is %s at process creation'
                               % (p.pid - PID_BASE, fd, name, 'not open' if ent is None else 'not a listening socket'),
                               where='process._get_sockets_fds')
                     if ent is None:
                         continue
-                    res.check('C07.fd_inheritable', ent[0],
-                              lambda: 'descriptor %d (%s) passed to worker %d is not inheritable' % (fd, name, p.pid - PID_BASE),
-                              where='sockets.CircusSocket')
+                    res.check('C07.fd_reaches_worker', reaches(fd),
+                              lambda: 'descriptor %d (%s) named in the command line of worker %d does not survive process creation '
+                              '(close_fds=%r, inheritable=%r, pass_fds=%r)' % (fd, name, p.pid - PID_BASE, p.close_fds, ent[0], p.pass_fds),
+                              where='process.spawn')
                     if not reuse and world.bound.get(name):
                         res.check('C07.same_socket', ent[1] == world.bound[name][0],
                                   lambda: 'worker %d got a different socket for %s than the one bound at start-up (inode %s vs %s)'
                                   % (p.pid - PID_BASE, name, ent[1], world.bound[name][0]), where='process._get_sockets_fds',
                                   nontrivial=gen > 1 or world.judged_spawns > 0)
             else:
-                res.check('C07.close_fds', p.close_fds is True,
-                          lambda: 'worker %d of a watcher without use_sockets created with close_fds=%r: it inherits the '
-                          'daemon\'s inheritable descriptors' % (p.pid - PID_BASE, p.close_fds), where='process.spawn')
+                leaked = sorted(fd for fd in table if fd > 2 and reaches(fd))
+                res.check('C07.no_fd_without_use_sockets', not leaked,
+                          lambda: 'worker %d of a watcher without use_sockets inherits daemon descriptors %s (close_fds=%r, '
+                          'pass_fds=%r)' % (p.pid - PID_BASE, leaked, p.close_fds, p.pass_fds), where='process.spawn')
         world.judged_spawns = len(world.kernel.spawn_log)
         # --- the daemon's sockets themselves
         for name, kind, reuse in SETS[scn.sset]:
